@@ -59,6 +59,13 @@ WITNESSES = {
                  exprs=[("dataset", 1)],
                  ops=[("evaluate", 0, False, False, {A: 1, 1: {5: {3: True}}}), ("evaluate", 0, False, False, {A: 1})]),
         fails_at=1),
+    # a caller's non-section value that overlays a yielding pre-set section away is reported by no keys()
+    "D26": dict(
+        what="cached(WithOptions(Option('S.X', default=9), {'S': {'X': 1}}, force=False)): {'S': []} -> 9 (the caller's list replaces the pre-set section, S.X is absent, the default is used; keys() = {}), then {} -> the stored 9 is served although the uncached evaluation yields the pre-set 1",
+        scn=dict(ftable={}, env={},
+                 exprs=[("cached", 50, ("with", False, {20: {21: 1}}, opt(K(20, 21), val(9))))],
+                 ops=[("evaluate", 0, False, False, {20: []}), ("evaluate", 0, False, False, {})]),
+        fails_at=1),
     # a cached lazily evaluated iterable: the cache keeps the generator object, exhausted by its first consumer
     "D21": dict(
         what="cached(Map(Option('A'), {'B': [1, 2]})) on {'A':0}: first evaluation yields two pairs, the second (cache hit) yields [] (the stored generator is exhausted)",
